@@ -31,3 +31,18 @@ func TestMatcher(t *testing.T) {
 		}
 	}
 }
+
+func TestCanon(t *testing.T) {
+	same := [][2]string{{`q&#34;&amp;&#39;`, `q&quot;&#38;&#x27;`}, {`a&lt;b`, `a&#60;b`}, {`a&LT;b`, `a&#x3C;b`}, {"plain", "plain"}, {"&nbsp;&copy;", "&nbsp;&copy;"}}
+	for _, p := range same {
+		if !SameText(p[0], p[1]) {
+			t.Errorf("%q and %q should be the same text: %q vs %q", p[0], p[1], Canon(p[0]), Canon(p[1]))
+		}
+	}
+	diff := [][2]string{{`a<b`, `a&lt;b`}, {`&amp;lt;`, `&lt;`}, {`&quot;`, `&#39;`}, {"a&b", "a&amp;b"}, {"&nbsp;", " "}}
+	for _, p := range diff {
+		if SameText(p[0], p[1]) {
+			t.Errorf("%q and %q must differ", p[0], p[1])
+		}
+	}
+}
